@@ -189,7 +189,7 @@ pub fn search_yacc(tier: &str) -> Option<Value> {
     // declarations with arguments of every class: ASCII and non-ASCII digits, numerics that are not digits, too-large
     // numbers, names, quoted strings, nothing at all; separated by white space of every class
     for pre in ["", "%start a\n"] { for decl in ["%expect", "%expect-rr", "%token", "%left", "%right", "%nonassoc", "%start", "%epp", "%avoid_insert", "%implicit_tokens", "%parse-param", "%actiontype"] {
-        for sep in [" ", "\t", "\u{0085}", "\u{2028}", ""] { for arg in ["1", "\u{0661}", "\u{00BD}", "\u{FF11}", "\u{2163}", "1\u{0661}", "\u{0661}1", "", "99999999999999999999", "a", "'x'", "\"y\"", "é", "-1", "+1", "1a", "a \u{0661}", "x: u8", "a \"é"] {
+        for sep in [" ", "\t", "\u{0085}", "\u{2028}", ""] { for arg in ["1", "\u{0661}", "\u{00BD}", "\u{FF11}", "\u{2163}", "1\u{0661}", "\u{0661}1", "", "99999999999999999999", "a", "'x'", "\"y\"", "é", "-1", "+1", "1a", "a \u{0661}", "x: u8", "a \"é", "X \"\\é\"", "X '\\\u{1F600}'", "X \"\\\"", "\"\\é"] {
             for tail in ["\n%%\na: ;", "\n", "", " 2\n%%\na: 'x';\n"] {
                 let s = format!("{}{}{}{}{}", pre, decl, sep, arg, tail);
                 let o = run_yacc(&s);
